@@ -138,6 +138,27 @@ def run(tier, seed, replay=None):
         except Exception as ex:
             V.fail("frame identity check raises %s" % type(ex).__name__, dict(desc, exc=str(ex)[:200]))
     dist["frame identity (exact)"] = n_frame
+    # ---- tiny systems whose first local right-hand side vanishes exactly (zero-sum last core of b, default start): the local tolerance is
+    # eps*||rhs|| = 0 and the small local system is solved exactly after a few Krylov steps - every local solver must survive that
+    rng_t = random.Random(seed + 17)
+    for Nt in ([2, 3], [3, 2], [2, 2, 3], [2, 3], [3, 3]):
+        for ls_, lname in ((1, "gmres"), (2, "bicgstab")):
+            dt_ = torch.float64; dd = len(Nt)
+            P = solverkit.rand_ttm_float(rng_t, Nt, Nt, [1] + [2] * (dd - 1) + [1], dt_)
+            P = P / P.norm() * math.sqrt(float(np.prod(Nt)))
+            A_ = ((P.t() @ P).round(1e-12) * 0.3 + torchtt.eye(Nt, dtype=dt_) * 2.0).round(1e-13)
+            b_ = solverkit.rand_tt_float(rng_t, Nt, [1] * (dd + 1), dt_)
+            cs_ = [c.clone() for c in b_.cores]; cs_[-1] = torch.zeros_like(cs_[-1]); cs_[-1][0, 0, 0] = 1.0; cs_[-1][0, 1, 0] = -1.0
+            b_ = torchtt.TT(cs_)
+            sd_ = rng_t.randrange(1 << 30); torch.manual_seed(sd_)
+            desc = {"tiny_zero_sum": True, "N": Nt, "local_solver": lname, "torch_seed": sd_, "A": [c.tolist() for c in A_.cores], "b": [c.tolist() for c in b_.cores]}
+            try:
+                x_ = torchtt.solvers.amen_solve(A_, b_, eps=1e-10, nswp=40, max_full=0, local_solver=ls_, verbose=False, use_cpp=False)
+                res_ = float((A_ @ x_ - b_).norm() / b_.norm())
+                if not res_ <= CONST * 1e-10: V.fail("residual exceeds %g*eps [tiny zero-sum %s]" % (CONST, lname), dict(desc, rel_residual=res_))
+            except Exception as ex:
+                V.fail("amen_solve raises %s [tiny zero-sum %s]" % (type(ex).__name__, lname), dict(desc, exc=str(ex)[:200]))
+            dist["tiny zero-sum " + lname] = dist.get("tiny zero-sum " + lname, 0) + 1
     for i in range(n):
         A, b, N, kind = gen_system(rng, torch, torchtt)
         eps = rng.choice([1e-10, 1e-8, 1e-6, 1e-4, 1e-3])
@@ -155,6 +176,8 @@ def run(tier, seed, replay=None):
             for p_ in range(cs_[-1].shape[0]): cs_[-1][p_, 0, 0] = float(p_ + 1); cs_[-1][p_, 1, 0] = -float(p_ + 1)
             b = torchtt.TT(cs_)
         gk = rng.choice(["none", "none", "none", "random", "random", "zeros", "0*b", "b", "random*1e6", "random*1e-9", "zero-core"])
+        if i in (2, 6):                       # engineered: zero-sum right-hand side, default start, iterative local solves (the local right-hand side of the first core vanishes: tolerance 0)
+            gk = "none"; max_full = 0; local = "bicgstab" if i == 2 else "gmres"; prec = None; band = None
         guess = None
         if gk != "none":
             guess = solverkit.rand_tt_float(rng, N, solverkit.ranks(rng, len(N), 3), torch.float64)
